@@ -92,6 +92,36 @@ def prepare_session(sc: Scratch, harness_mods: list[tuple[str, str, str]]) -> di
             "rewrites": {"pavex_session": totals, "px_workspace_hack": "hakari section emptied"}}
 
 
+def prepare_memstore(sc: Scratch, harness_path: Path) -> dict:
+    """Encoding of pavex_session_memory_store on top of the session encoding (its dependency)."""
+    base = prepare_session(sc, [])
+    src = sc.root / "enc_memstore" / "src"
+    if src.parent.exists():
+        shutil.rmtree(src.parent)
+    shutil.copytree(sc.repo / MEMSTORE_REL, src)
+    totals = rewrite_tree(src, map_path="pavex_session::verif_map")
+    # Vec growth (realloc + memcpy of symbolic size) makes delete_expired explode in CBMC (45 M variables):
+    # pre-size the one Vec of the store to the bound of the harness. Stated cut: capacity growth is outside.
+    lib0 = src / "lib.rs"
+    txt, n = rewrite_tokens(lib0.read_text(), [(r"\bVec::new\(\)", "Vec::with_capacity(2)")])
+    lib0.write_text(txt)
+    totals["vec_new_presized"] = list(n.values())[0]
+    hdir = sc.root / "harness"
+    hdir.mkdir(exist_ok=True)
+    hcopy = hdir / harness_path.name
+    shutil.copy(harness_path, hcopy)
+    lib = src / "lib.rs"
+    lib.write_text(lib.read_text() + f'\n#[cfg(kani)]\n#[path = "{hcopy}"]\nmod verif_c13;\n')
+    pkg = sc.root / "h_memstore"
+    pkg.mkdir(parents=True, exist_ok=True)
+    toml = (VERIF / "harness" / "memstore" / "Cargo.toml.in").read_text()
+    toml = toml.replace("@SRC@", str(src)).replace("@SHIMS@", str(VERIF / "shims")).replace("@SESSION_PKG@", str(base["pkg_dir"]))
+    (pkg / "Cargo.toml").write_text(toml)
+    rew = dict(base["rewrites"])
+    rew["pavex_session_memory_store"] = totals
+    return {"pkg_dir": pkg, "harness_copies": {"verif_c13": hcopy}, "rewrites": rew}
+
+
 # ---------------------------------------------------------------------------------------------
 # native replay of a counterexample against the real crates
 # ---------------------------------------------------------------------------------------------
@@ -211,13 +241,89 @@ def confirm_session(pid: str, sc: Scratch, prep: dict, r, log_dir: Path, modname
     lines = [json.loads(l.split("VTRACE ", 1)[1]) for l in p.stdout.splitlines() if "VTRACE " in l]
     worlds = [l for l in lines if l.get("kind") == "world"]
     ops = [l for l in lines if l.get("kind") == "op"]
+    extra = {}
+    for l in lines:
+        if l.get("kind") == "c12":
+            extra = {"cookie": l["cookie"], "middleware": l["middleware"]}
     shim_fails = bool(re.search(r"test result: FAILED|panicked at", p.stdout))
     if not worlds:
         return {"reproduced": None, "role": role, "detail": "shim playback produced no trace (see log)"}
-    script = script_from_trace(worlds[0], ops)
-    script["_origin"]["harness"] = r.spec.name
-    script["_origin"]["failed"] = role
-    script["_origin"]["shim_playback_fails"] = shim_fails
+    exe = build_native_replayer(sc, log_dir / "native-build.log")
+    rep_dir = VERIF / "replays" / "generated" / pid
+    rep_dir.mkdir(parents=True, exist_ok=True)
+    op_sig = " ".join(o["op"] for o in ops)
+    # The counterexample itself first; then - because a broken invariant only becomes observable
+    # when a later operation relies on it - the same pre-state and operation under the other
+    # creation / missing-state policies and followed by a few short continuations. This is replay
+    # (finding the concrete public-API history the solver's counterexample stands for), not the
+    # deciding step: nothing is reported unless the real crates misbehave on a concrete script.
+    continuations = [[], [{"op": "sync"}], [{"op": "server_insert", "key": "a", "value": True}],
+                     [{"op": "sync"}, {"op": "server_insert", "key": "a", "value": True}],
+                     [{"op": "sync"}, {"op": "server_get", "key": "a"}],
+                     [{"op": "client_insert", "key": "a", "value": True}],
+                     [{"op": "sync"}, {"op": "cycle_id"}]]
+    if extra:
+        continuations = [[]]
+    first = None
+    tried = 0
+    for flip_creation in ((False,) if extra else (False, True)):
+        for flip_missing in ((False,) if extra else (False, True)):
+            for cont in continuations:
+                w = dict(worlds[0])
+                if flip_creation:
+                    w["never_skip"] = not w["never_skip"]
+                if flip_missing:
+                    w["allow"] = not w["allow"]
+                script = script_from_trace(w, ops + cont)
+                script.update(extra)
+                script["_origin"].update({"harness": r.spec.name, "failed": role, "shim_playback_fails": shim_fails,
+                                          "variant": {"flip_creation": flip_creation, "flip_missing": flip_missing, "continuation": cont}})
+                h = hashlib.sha256(json.dumps(script, sort_keys=True).encode()).hexdigest()[:12]
+                rep = rep_dir / f"{r.spec.name}-{h}.json"
+                rep.write_text(json.dumps(script, indent=1) + "\n")
+                if first is None:
+                    first = rep
+                if exe is None:
+                    return {"reproduced": None, "replay": str(rep), "role": role, "detail": "native replayer did not build against the real crates"}
+                ok, detail = run_native_script(exe, rep)
+                tried += 1
+                if ok is True:
+                    return {"reproduced": True, "replay": str(rep), "role": f"{r.spec.name}|{op_sig}",
+                            "detail": detail + f" [variant {tried}: creation flipped={flip_creation}, missing flipped={flip_missing}, continuation={[c['op'] for c in cont]}]"}
+                if rep != first:
+                    rep.unlink(missing_ok=True)
+    return {"reproduced": False, "replay": str(first), "role": f"{r.spec.name}|{op_sig}",
+            "detail": f"none of {tried} concrete scripts derived from the counterexample misbehaves on the real crates" + ("" if shim_fails else " [note: shim playback passed natively]")}
+
+
+def confirm_memstore(pid: str, sc: Scratch, prep: dict, r, log_dir: Path) -> dict:
+    role = f"{r.spec.name}: " + "; ".join(sorted({c["description"] for c in r.failed}))
+    r2 = core.run_kani(prep["pkg_dir"], prep["target_dir"], r.spec, log_dir, prep.get("kani_args"), playback="print")
+    text = Path(r2.log_path).read_text(errors="replace")
+    tests = re.findall(r"Concrete playback unit test for `[^`]+`:\n```\n(.*?)```", text, re.S)
+    tests = [t for t in tests if "Check for `cover`" not in t] or tests
+    if not tests:
+        return {"reproduced": None, "role": role, "detail": "Kani produced no concrete playback test"}
+    hcopy = prep["harness_copies"]["verif_c13"]
+    hcopy.write_text(hcopy.read_text() + "\n" + tests[0] + "\n")
+    name = re.search(r"fn (kani_concrete_playback_\w+)", tests[0]).group(1)
+    p = subprocess.run(["cargo", "kani", "playback", "-Z", "concrete-playback", "--", name, "--nocapture"],
+                       cwd=prep["pkg_dir"], env=core.env_offline(), stdout=subprocess.PIPE, stderr=subprocess.STDOUT, text=True)
+    (log_dir / f"{r.spec.name}.shim-playback.log").write_text(p.stdout)
+    lines = [json.loads(l.split("VTRACE ", 1)[1]) for l in p.stdout.splitlines() if "VTRACE " in l]
+    stores = [l for l in lines if l.get("kind") == "store"]
+    ops = [l for l in lines if l.get("kind") == "op"]
+    if not stores or not ops:
+        return {"reproduced": None, "role": role, "detail": "shim playback produced no trace (see log)"}
+    st, op = stores[0], ops[0]
+    as_map = lambda m: {k: _val(v) for k, v in zip(("a", "b"), m) if v is not None}
+    recs = []
+    for lab, key in (("A", "a"), ("B", "b")):
+        if st[key]:
+            recs.append({"id": lab, "state": as_map(st[key]["state"]), "live": st[key]["deadline"] > st["now"],
+                         "_deadline": st[key]["deadline"]})
+    script = {"records": recs, "op": {"name": op["name"], "id": op["id"], "to": op["to"], "state": as_map(op["state"]), "batch": op["batch"]},
+              "_origin": {"harness": r.spec.name, "failed": role, "now": st["now"]}}
     h = hashlib.sha256(json.dumps(script, sort_keys=True).encode()).hexdigest()[:12]
     rep_dir = VERIF / "replays" / "generated" / pid
     rep_dir.mkdir(parents=True, exist_ok=True)
@@ -226,18 +332,17 @@ def confirm_session(pid: str, sc: Scratch, prep: dict, r, log_dir: Path, modname
     exe = build_native_replayer(sc, log_dir / "native-build.log")
     if exe is None:
         return {"reproduced": None, "replay": str(rep), "role": role, "detail": "native replayer did not build against the real crates"}
-    ok, detail = run_native_script(exe, rep)
-    op_sig = " ".join(o["op"] for o in ops)
-    return {"reproduced": ok, "replay": str(rep), "role": f"{r.spec.name}|{op_sig}", "detail": detail + ("" if shim_fails else " [note: shim playback passed natively]")}
+    ok, detail = run_native_script(exe.parent / "memstore_native", rep)
+    return {"reproduced": ok, "replay": str(rep), "role": f"{r.spec.name}|{op['name']}", "detail": detail}
 
 
-def replay_script(pid: str, path: Path) -> int:
+def replay_script(pid: str, path: Path, exe_name: str = "session_native") -> int:
     with Scratch(pid + "-replay") as sc:
         exe = build_native_replayer(sc, CACHE / "logs" / pid / "native-build.log")
         if exe is None:
             core.log("native replayer did not build")
             return 2
-        ok, detail = run_native_script(exe, path)
+        ok, detail = run_native_script(exe.parent / exe_name, path)
     core.log(f"replay {path}: {detail}")
     if ok is True:
         print(f"VIOLATION property={pid} replay={path}", flush=True)
